@@ -15,9 +15,9 @@ class Check(PropertyCheck):
     LEAN_MODULE = "JobShopProofs.Properties.C10"
     THEOREMS = [
         "JS.C10_dispatch_notifies", "JS.C10_recorder_sees_post_state", "JS.C10_rejected_silent", "JS.C10_reset_once",
-        "JS.C10_unsubscribe", "JS.C10_singleton", "JS.C10_create_or_get", "JS.C10_create_or_get_cond", "JS.C10_history",
+        "JS.C10_unsubscribe", "JS.C10_detached", "JS.C10_singleton", "JS.C10_create_or_get", "JS.C10_create_or_get_cond", "JS.C10_history",
     ]
-    RULE = ("random instance x random event list over {construct(history|unscheduled|makespan_reward|idle_reward|recorder), "
+    RULE = ("random instance x random event list over {construct(history|unscheduled|makespan_reward|idle_reward|recorder; also with subscribe=False), "
             "create_or_get, unsubscribe, re-subscribe, valid and invalid dispatch, reset}; several recorder observers (a "
             "DispatcherObserver subclass of the harness that logs, inside update()/reset(), the scheduled operation and a "
             "snapshot of schedule, vectors, current_time() and unscheduled_operations()) share a global call trace; the whole "
@@ -50,13 +50,17 @@ class Check(PropertyCheck):
             lines.append("obs " + rng.choice(KINDS))
         for _ in range(rng.randint(0, 2)):
             lines.append(f"obs recorder {rng.randint(0, 2)}")
+        if rng.random() < 0.4:
+            lines.append("obsn " + rng.choice(KINDS))
         lines.append("wsnap")
         steps = 0
         while not tr.done() and steps < 60:
             steps += 1
             r = rng.random()
-            if r < 0.08:
+            if r < 0.06:
                 lines.append("obs " + rng.choice(KINDS))
+            elif r < 0.09:
+                lines.append("obsn " + rng.choice(KINDS))      # constructed with subscribe=False
             elif r < 0.12:
                 lines.append(f"obs recorder {rng.randint(0, 2)}")
             elif r < 0.15:
@@ -102,6 +106,21 @@ class Check(PropertyCheck):
             return res
         cmd = line.split()[0]
         subs_now = [o for o in d.subscribers]
+        # observers constructed with subscribe=False stay out of the subscriber list until subscribed by hand
+        det = ctx.setdefault("detached", set())
+        if cmd == "obsn" and out not in ("raise", "bad-op"):
+            det.add(int(out))
+        if cmd == "resub" and out == "ok":
+            det.discard(int(line.split()[1]))
+        if cmd == "inst":
+            det.clear()
+        for i in sorted(det):
+            if i < len(impl.heap) and any(o is impl.heap[i] for o in subs_now):
+                res.append(("detached-subscribed", f"observer {i} ({impl.kinds[i]}) was constructed with subscribe=False "
+                            f"but is in dispatcher.subscribers after `{line}`"))
+            if i < len(impl.heap) and impl.kinds[i] == "history" and impl.heap[i].history:
+                res.append(("detached-notified", f"non-subscribed history observer {i} recorded "
+                            f"{len(impl.heap[i].history)} dispatches"))
         before_ids = ctx.get("subs_before", [])
         trace = impl.trace
         new = trace[ctx["trace_len"]:]
